@@ -43,3 +43,18 @@ theories/Undo/UndoProofs.vos theories/Undo/UndoProofs.vok theories/Undo/UndoProo
 theories/Properties_C12.vo theories/Properties_C12.glob theories/Properties_C12.v.beautified theories/Properties_C12.required_vo: theories/Properties_C12.v theories/IoCache/IoModel.vo theories/Undo/UndoModel.vo theories/Undo/UndoProofs.vo
 theories/Properties_C12.vio: theories/Properties_C12.v theories/IoCache/IoModel.vio theories/Undo/UndoModel.vio theories/Undo/UndoProofs.vio
 theories/Properties_C12.vos theories/Properties_C12.vok theories/Properties_C12.required_vos: theories/Properties_C12.v theories/IoCache/IoModel.vos theories/Undo/UndoModel.vos theories/Undo/UndoProofs.vos
+theories/Gen/CrcTables.vo theories/Gen/CrcTables.glob theories/Gen/CrcTables.v.beautified theories/Gen/CrcTables.required_vo: theories/Gen/CrcTables.v 
+theories/Gen/CrcTables.vio: theories/Gen/CrcTables.v 
+theories/Gen/CrcTables.vos theories/Gen/CrcTables.vok theories/Gen/CrcTables.required_vos: theories/Gen/CrcTables.v 
+theories/Crc/Crc.vo theories/Crc/Crc.glob theories/Crc/Crc.v.beautified theories/Crc/Crc.required_vo: theories/Crc/Crc.v 
+theories/Crc/Crc.vio: theories/Crc/Crc.v 
+theories/Crc/Crc.vos theories/Crc/Crc.vok theories/Crc/Crc.required_vos: theories/Crc/Crc.v 
+theories/Crc/Csum.vo theories/Crc/Csum.glob theories/Crc/Csum.v.beautified theories/Crc/Csum.required_vo: theories/Crc/Csum.v theories/Crc/Crc.vo
+theories/Crc/Csum.vio: theories/Crc/Csum.v theories/Crc/Crc.vio
+theories/Crc/Csum.vos theories/Crc/Csum.vok theories/Crc/Csum.required_vos: theories/Crc/Csum.v theories/Crc/Crc.vos
+theories/Crc/CrcProofs.vo theories/Crc/CrcProofs.glob theories/Crc/CrcProofs.v.beautified theories/Crc/CrcProofs.required_vo: theories/Crc/CrcProofs.v theories/Crc/Crc.vo theories/Crc/Csum.vo
+theories/Crc/CrcProofs.vio: theories/Crc/CrcProofs.v theories/Crc/Crc.vio theories/Crc/Csum.vio
+theories/Crc/CrcProofs.vos theories/Crc/CrcProofs.vok theories/Crc/CrcProofs.required_vos: theories/Crc/CrcProofs.v theories/Crc/Crc.vos theories/Crc/Csum.vos
+theories/Properties_C14.vo theories/Properties_C14.glob theories/Properties_C14.v.beautified theories/Properties_C14.required_vo: theories/Properties_C14.v theories/Crc/Crc.vo theories/Crc/CrcProofs.vo theories/Crc/Csum.vo theories/Gen/CrcTables.vo
+theories/Properties_C14.vio: theories/Properties_C14.v theories/Crc/Crc.vio theories/Crc/CrcProofs.vio theories/Crc/Csum.vio theories/Gen/CrcTables.vio
+theories/Properties_C14.vos theories/Properties_C14.vok theories/Properties_C14.required_vos: theories/Properties_C14.v theories/Crc/Crc.vos theories/Crc/CrcProofs.vos theories/Crc/Csum.vos theories/Gen/CrcTables.vos
